@@ -1,4 +1,5 @@
 import DcVerif.Lemmas.Ring
+import DcVerif.Lemmas.RingMulti
 /-!
 # C14 — sequencers hand out disjoint gap-free ranges; the cursor is the published prefix
 
@@ -13,8 +14,10 @@ and **every schedule** (`Reachable`):
 * `c14_cursor_eq_highest_claimed` — between `write` calls (all claims published) the cursor equals the highest claimed
                             sequence.
 
-Multi-producer sequencer: see the end of this file (`Props/C14` states which clauses fail today — known finding F7/F8 —
-with schedule-exact witnesses in `Props/C14Multi.lean` once the multi-producer model is in place).
+Multi-producer sequencer (`Model/RingMulti.lean`, any number of writer threads, every interleaving of the read /
+capacity check / CAS / bitmap / cursor steps): `c14_multi_claims_tile` and `c14_multi_cursor_monotone` hold; the other two
+clauses are false today (known finding F7): `c14_multi_cursor_below_highest_claimed` is a schedule-exact witness, identical
+to what the real code does under the same schedule (harness corpus case `F7-witness`).
 -/
 namespace C14
 open Ring
@@ -79,5 +82,43 @@ def demo : PSt := runX (mk 4 1 (fun _ => 1) true [2, 1, 3])
 
 example : demo.p.claims = [(0, 1, 2), (2, 2, 1), (3, 5, 3)] ∧ demo.s.cursor = 5 ∧ demo.p.written = [0, 1, 2, 3, 4, 5] := by
   decide +kernel
+
+/-! ## multi-producer sequencer -/
+section Multi
+open RingMulti
+
+/-- a state reachable with the multi-producer sequencer: any ring size, topology, wait strategy, number of writer threads,
+batch lists with batches of at least one element, **any schedule** -/
+def MReachable (x : MSt) : Prop :=
+  ∃ (n K : Nat) (h : Nat → Nat) (blocking : Bool) (batches : List (List Nat)) (sched : List MTid),
+    (∀ l, l ∈ batches → ∀ b, b ∈ l → 1 ≤ b) ∧ x = runM (mkM n K h blocking batches) sched
+
+theorem mreachable_inv {x : MSt} (hr : MReachable x) : MInv x := by
+  obtain ⟨n, K, h, bl, bs, sched, hb, rfl⟩ := hr
+  exact minv_run _ sched (minv_init n K h bl bs hb)
+
+/-- concurrent claims: the ranges won by the successful compare-and-swaps, in that order, partition `[1, high_watermark]`
+into consecutive non-empty ranges of exactly the requested lengths — for every interleaving -/
+theorem c14_multi_claims_tile {x : MSt} (hr : MReachable x) : Tiles 1 x.allClaims (x.hw + 1) :=
+  (mreachable_inv hr).tiles
+
+/-- the cursor visible to consumers never decreases, whichever thread steps -/
+theorem c14_multi_cursor_monotone {x : MSt} (hr : MReachable x) (t : MTid) : x.s.cursor ≤ (stepM x t).s.cursor :=
+  cursor_mono_stepM x t (mreachable_inv hr)
+
+/-- **F7 (negation of "once all claimants have published the cursor equals the highest claimed sequence")**: writer 0 claims
+sequence 1, writer 1 claims 2, writes and publishes first (its release scan finds 1 unset and releases nothing), then writer 0
+publishes (its scan stops at its own `hi = 1`). Both `write` calls have returned, yet the cursor is 1 and sequence 2 is stranded. -/
+def strandedRun : MSt := runM (mkM 4 1 (fun _ => 1) false [[1], [1]])
+  ((List.replicate 6 (MTid.writer 0)) ++ (List.replicate 20 (MTid.writer 1)) ++ (List.replicate 20 (MTid.writer 0)))
+
+theorem c14_multi_cursor_below_highest_claimed :
+    (strandedRun.wr 0).pc = .done ∧ (strandedRun.wr 1).pc = .done ∧
+    strandedRun.allClaims = [(1, 1, 1), (2, 2, 1)] ∧ strandedRun.written = [(2, 1), (1, 0)] ∧
+    strandedRun.hw = 2 ∧ strandedRun.s.cursor = 1 := by decide +kernel
+
+example : MReachable strandedRun := ⟨4, 1, fun _ => 1, false, [[1], [1]], _, by decide, rfl⟩
+
+end Multi
 
 end C14
